@@ -11,6 +11,7 @@
 -/
 import Driver.Proto
 import DecimalModel.DecOps
+import DecimalModel.DivRec
 import DecimalModel.AsmRoutines
 
 namespace Driver
@@ -164,7 +165,7 @@ def doKern (line : String) : String :=
         let model : Option (Except String (List Nat × List Nat)) := match op with
           | "mul" => some (.ok (mul kt (x.length + y.length + 2) x y, []))
           | "sqr" => some (.ok (sqr bt st kt (x.length + 2) x, []))
-          | "div" => if y.length < c_divRecursiveThreshold then some (div x y) else none
+          | "div" => some (divFull c_divRecursiveThreshold kt x y)
           | "divW" => some ((divW x s).map (fun (q, r) => (q, [r])))
           | "shl" => some (.ok (shl x s, [])) | "shr" => some (.ok (shr x s, []))
           | "add" => some (.ok (add x y, []))
